@@ -58,12 +58,9 @@ func (k Keeper) AddAllowedBidders(ctx context.Context, auctionId uint64, allowed
 		return sdkerrors.Wrapf(err, "auction %d is not found", auctionId)
 	}
 
-	// Call hook before adding allowed bidders for the auction
-	if err := k.BeforeAllowedBiddersAdded(ctx, allowedBidders); err != nil {
-		return err
-	}
-
-	// Store new allowed bidders
+	// Validate the entries and bring them into the form they are stored in,
+	// so that the hook is told exactly what is going to be stored
+	entries := make([]types.AllowedBidder, 0, len(allowedBidders))
 	for _, ab := range allowedBidders {
 		if err := ab.Validate(); err != nil {
 			return err
@@ -78,6 +75,20 @@ func (k Keeper) AddAllowedBidders(ctx context.Context, auctionId uint64, allowed
 		}
 		ab.AuctionId = auctionId
 		ab.Bidder = bidder.String()
+		entries = append(entries, ab)
+	}
+
+	// Call hook before adding allowed bidders for the auction
+	if err := k.BeforeAllowedBiddersAdded(ctx, entries); err != nil {
+		return err
+	}
+
+	// Store new allowed bidders
+	for _, ab := range entries {
+		bidder, err := ab.GetBidder()
+		if err != nil {
+			return err
+		}
 		if err := k.AllowedBidder.Set(ctx, collections.Join(auctionId, bidder), ab); err != nil {
 			return err
 		}
